@@ -22,7 +22,21 @@ type FaultDB struct {
 	armed atomic.Bool
 	// Failed counts write transactions that were refused.
 	Failed atomic.Int64
+
+	// Retry makes every write transaction run its closure twice: the
+	// first execution is rolled back, the reset callback is called and the
+	// closure runs again - what lnd's SQL-backed and etcd kvdb backends do
+	// when a transaction hits a serialisation conflict (sqlbase
+	// executeTransaction; kvdb.Update documents that the closure may be
+	// retried and that reset must bring the caller's variables back).
+	// State that a closure accumulates outside the transaction without
+	// resetting it is committed twice (seeded change C02e).
+	Retry atomic.Bool
+	// Retried counts transactions whose closure was executed twice.
+	Retried atomic.Int64
 }
+
+var errRetryProbe = errors.New("chansim: first execution of a retried transaction")
 
 var _ kvdb.Backend = (*FaultDB)(nil)
 
@@ -36,6 +50,22 @@ func (f *FaultDB) Update(fn func(tx walletdb.ReadWriteTx) error, reset func()) e
 	if f.armed.Load() {
 		f.Failed.Add(1)
 		return ErrInjected
+	}
+	if f.Retry.Load() {
+		err := f.DB.Update(func(tx walletdb.ReadWriteTx) error {
+			if err := fn(tx); err != nil {
+				return err
+			}
+
+			return errRetryProbe
+		}, reset)
+		if !errors.Is(err, errRetryProbe) {
+			// The closure itself failed: nothing was committed,
+			// report it as the backend would.
+			return err
+		}
+		reset()
+		f.Retried.Add(1)
 	}
 	return f.DB.Update(fn, reset)
 }
